@@ -758,7 +758,8 @@ impl<C: KeyColl> KeyExec<C> {
                 ctx::phase(0);
                 let got = sut.export(t);
                 ctx::phase(1);
-                if mon.capacity {
+                // C19 speaks of the tree's export; the list variant may keep its own allocation
+                if mon.capacity && C::IS_TREE {
                     let n = phys.unwrap_or_else(|| self.model.len());
                     rep.evaluations += 1;
                     rep.counters.max("max_export_capacity", got.capacity() as u64);
